@@ -207,6 +207,15 @@ def run(rep, repo, tier):
                    (want_axes, True)), instance=cfg,
                   loc=b.pe.loc_of(b.term))
   rep.extra["configuration_points"] = n
+  # R6 grouped scales (scale_axis / elements_per_scale), rule shared with C04
+  from .c04 import rule_groups
+  rule_groups(rep, repo, [
+      ("quantized_bits", dict(bits=4, integer=0, alpha="auto")),
+      ("quantized_bits", dict(bits=4, integer=0, alpha="auto_po2")),
+      ("quantized_linear", dict(bits=4, integer=0, alpha="auto")),
+      ("quantized_linear", dict(bits=4, integer=0, alpha="auto_po2"))],
+              "R6", tier)
+  rep.require_instances("R6", 40)
   rep.require_instances("R1", 100)
   rep.require_instances("R2", 30)
   rep.require_instances("R3", 60)
